@@ -120,3 +120,77 @@ def validate(res, runs, name, family="conn", shards=16):
             if int(d) != 0:
                 bad.append((r, int(d), int(i), evs))
     return bad, items
+
+
+# ---------------------------------------------------------------- responder (Resp.v)
+
+def responder_events(run, sconn="ws-server#1", cconn="ws-client#1", client="client#1"):
+    evs = []
+    tok2id = {}
+    for e in run["events"]:
+        p, c, a = e["p"], e["c"], e["a"] or []
+        if c == client and p == "call.start":
+            args = a[4] if len(a) > 4 else []
+            if args:
+                tok2id[args[0]] = nid(a[0])
+    for e in run["events"]:
+        p, c, a = e["p"], e["c"], e["a"] or []
+        if c == "harness" and p == "ctx.cancel":
+            # the caller's intent as the harness knows it (not as the library reports it)
+            i = tok2id.get(a[0])
+            if i is not None:
+                evs.append("CallerCancel %d" % i)
+        elif c == sconn:
+            if p == "call.register":
+                evs.append("SRegister %d" % nid(a[0]))
+            elif p == "call.done":
+                i = nid(a[0])
+                if i is not None:
+                    evs.append("SDone %d %s" % (i, "true" if a[1] else "false"))
+            elif p == "cancel.recv":
+                i = nid(a[0])
+                if i is not None:
+                    evs.append("SCancelRecv %d %s" % (i, "true" if a[1] else "false"))
+            elif p == "cif.cancelling":
+                evs.append("SCifCancelled")
+            elif p == "loop.exit":
+                evs.append("SExit")
+        elif c == "harness":
+            if p == "srv.cancel":
+                evs.append("SCtxCancelled")
+            elif p == "h.ctxdone":
+                tok = a[0]
+                if tok in tok2id:
+                    i = tok2id[tok]
+                    evs.append("HCtxDone %d" % i if i is not None else "HCtxDoneNote")
+            elif p == "h.end" and len(a) > 1 and a[1] is False:
+                tok = a[0]
+                if tok2id.get(tok) is not None:
+                    evs.append("HEndLive %d" % tok2id[tok])
+    return evs
+
+
+RHEADER = "From Coq Require Import List NArith Bool.\nImport ListNotations.\nFrom JR Require Import Resp AuthCases RespCases.\nOpen Scope N_scope.\n"
+
+
+def validate_responder(res, runs, name, family="conn"):
+    import re
+    items = [(r, responder_events(r)) for r in runs if sum(1 for e in r["events"] if e["c"].startswith("ws-server#") and e["p"] == "loop.exit") <= 1
+             and not any(e["c"] == "ws-server#2" for e in r["events"])]
+    if not items:
+        return [], items
+    groups = [items[i::8] for i in range(8)]
+    groups = [g for g in groups if g]
+    jobs = [("cases_%sr_%d" % (name, si), RHEADER + "Definition cases : list (list rev * bool) := [\n%s\n].\nDefinition D := Eval vm_compute in map (fun c => rcase_diag_end (fst c) (snd c)) cases.\nPrint D.\n"
+             % ";\n".join("([" + "; ".join(evs) + "], %s)" % ("true" if r["scenario"] == "connend" else "false") for r, evs in g)) for si, g in enumerate(groups)]
+    bad = []
+    for (nm, rc, out), g in zip(vlib.run_cases_parallel(jobs), groups):
+        m = re.search(r"D\s*=\s*(.*?)\n\s*:\s", out, flags=re.S) if rc == 0 else None
+        pairs = re.findall(r"\(\s*(\d+),\s*(\d+)\s*\)", m.group(1)) if m else None
+        if pairs is None or len(pairs) != len(g):
+            res.mismatches.append({"family": family, "error": "cases file %s did not evaluate" % nm, "log": out[-1500:]})
+            continue
+        for (d, i), (r, evs) in zip(pairs, g):
+            if int(d) != 0:
+                bad.append((r, int(d), int(i), evs))
+    return bad, items
